@@ -49,8 +49,10 @@ func runRaced(c listCase, r *pb.Rec) error {
 
 func TestRaced(t *testing.T) {
 	st := pb.Stats("synclist_raced")
-	st.SetRule("generated programs (2-5 goroutines x 1-4 calls, no probe; the probe needs a frozen schedule) run on real goroutines released from a barrier, unshimmed code under the race detector (GORACE=halt_on_error=1; the program being run is saved before every execution so a report can be attributed); history recorded with an atomic logical clock and checked with the same conservation/linearizability/Len oracles; non-trivial = >= 2 mutating calls actually overlapped")
-	gen := rapid.Custom(func(t *rapid.T) listCase { return genProgram(t, 5, 4, false) })
+	st.SetRule("generated programs (2-5 goroutines x 1-4 calls, no probe; the probe needs a frozen schedule; one program in twelve also uses PopWait(25ms) and delays of 1-34 ms that move pushes around its deadline) run on real goroutines released from a barrier, unshimmed code under the race detector (GORACE=halt_on_error=1; the program being run is saved before every execution so a report can be attributed); history recorded with an atomic logical clock and checked with the same conservation/linearizability/Len oracles; non-trivial = >= 2 mutating calls actually overlapped")
+	gen := rapid.Custom(func(t *rapid.T) listCase {
+		return genProgram(t, 5, 4, false, rapid.IntRange(0, 11).Draw(t, "timed") == 0)
+	})
 	n := pb.Scaled(1500)
 	cur := os.Getenv("VERIF_CURRENT_CASE")
 	for i := 0; i < n; i++ {
@@ -61,9 +63,16 @@ func TestRaced(t *testing.T) {
 		}
 		rec := &pb.Rec{}
 		reps := 1
-		if i%10 == 0 {
+		timedProg := false
+		for _, th := range c.Threads {
+			for _, cl := range th {
+				timedProg = timedProg || cl.K == "popwaitT" || cl.K == "sleep"
+			}
+		}
+		if i%10 == 0 && !timedProg {
 			reps = 20 // the same program repeatedly: different real interleavings
 		}
+		rec.ClassIf(timedProg, "timed PopWait / delayed pushes")
 		for k := 0; k < reps; k++ {
 			t0 := time.Now()
 			err := runRaced(c, rec)
@@ -109,13 +118,17 @@ type loopCase struct {
 	Waits     bool
 }
 
+type stalled struct{ msg string }
+
+func (e stalled) Error() string { return "INCONCLUSIVE: " + e.msg }
+
 func runLoops(c loopCase) error {
 	if c.Producers < 1 || c.Producers > 8 || c.Consumers < 1 || c.Consumers > 8 || c.PerProd < 1 || c.PerProd > 100000 {
 		return nil
 	}
 	l := listz.NewSync[int]()
 	total := c.Producers * c.PerProd
-	var consumed int64
+	var consumed, produced, abort int64
 	got := make([][]int, c.Consumers)
 	var lenErr atomic.Value
 	stop := make(chan struct{})
@@ -123,15 +136,16 @@ func runLoops(c loopCase) error {
 	for p := 0; p < c.Producers; p++ {
 		p := p
 		bodies = append(bodies, func() {
-			for i := 0; i < c.PerProd; i++ {
+			for i := 0; i < c.PerProd && atomic.LoadInt64(&abort) == 0; i++ {
 				l.Push(p*1000000 + i)
+				atomic.AddInt64(&produced, 1)
 			}
 		})
 	}
 	for k := 0; k < c.Consumers; k++ {
 		k := k
 		bodies = append(bodies, func() {
-			for atomic.LoadInt64(&consumed) < int64(total) {
+			for atomic.LoadInt64(&consumed) < int64(total) && atomic.LoadInt64(&abort) == 0 {
 				v, ok := l.Pop()
 				if !ok {
 					runtime.Gosched()
@@ -145,6 +159,7 @@ func runLoops(c loopCase) error {
 	obsDone := make(chan struct{})
 	go func() {
 		defer close(obsDone)
+		last, lastChange := int64(-1), time.Now()
 		for {
 			select {
 			case <-stop:
@@ -153,6 +168,11 @@ func runLoops(c loopCase) error {
 			}
 			if n := l.Len(); n < 0 {
 				lenErr.CompareAndSwap(nil, fmt.Sprintf("Len() = %d during the run", n))
+			}
+			if now := atomic.LoadInt64(&consumed) + atomic.LoadInt64(&produced); now != last {
+				last, lastChange = now, time.Now()
+			} else if time.Since(lastChange) > 15*time.Second {
+				atomic.StoreInt64(&abort, 1) // a pusher spinning inside Push cannot be stopped: the test deadline ends the run then
 			}
 			runtime.Gosched()
 		}
@@ -184,6 +204,25 @@ func runLoops(c loopCase) error {
 			last[p] = i
 		}
 	}
+	if atomic.LoadInt64(&abort) != 0 {
+		for n := 0; ; n++ {
+			v, ok := l.Pop()
+			if !ok {
+				break
+			}
+			if seen[v] {
+				return fmt.Errorf("value %d popped twice", v)
+			}
+			seen[v] = true
+			if n > total {
+				return fmt.Errorf("the quiescent list yields more values than were ever pushed")
+			}
+		}
+		if int64(len(seen)) < atomic.LoadInt64(&produced) {
+			return fmt.Errorf("no progress: %d values were pushed but only %d ever came out and the quiescent list is empty (lost values)", produced, len(seen))
+		}
+		return stalled{fmt.Sprintf("no progress for 15s with %d of %d consumed, but the quiescent list is consistent", consumed, total)}
+	}
 	if len(seen) != total {
 		return fmt.Errorf("%d of %d values came out (lost values)", len(seen), total)
 	}
@@ -210,6 +249,10 @@ func TestRacedLoops(t *testing.T) {
 			os.WriteFile(cur, wrapReplay("synclist_raced_loops", js), 0o644)
 		}
 		if err := runLoops(c); err != nil {
+			if _, inc := err.(stalled); inc {
+				st.Note("%v: %s", err, js)
+				t.Fatalf("NO-VERDICT %v", err)
+			}
 			st.Violation("raced-loops", js, err)
 			t.Fatalf("loops %s: %v", js, err)
 		}
